@@ -15,14 +15,15 @@ CHECKS = {
 }
 
 CHECKS.update({
-    'C01': dict(level='other', technique='abstract interpretation of MIR per operand-pair cell vs exact rational oracle',
-        text=('Decides the NaR/zero algebra and guard evaluation order of + - * / (const methods) for all operand pairs of each control-determinate cell; specification-critical operand pairs '
-              '(exact ties, saturation, powers of two) are decided singly by constant propagation through the MIR. Does NOT decide rounding/alignment on the general arithmetic path beyond those points.'), design='4/C01'),
+    'C01': dict(level='other', technique='abstract interpretation of MIR per operand-pair cell vs exact rational oracle; symbolic bit-vector rounding cells with one symbolic operand; directed probe families',
+        text=('Decides the NaR/zero algebra and guard evaluation order of + - * / for all operand pairs of each control-determinate cell; proves a +/- b correctly rounded for a constant a (2^s*1.0 or 2^s*1.1..1) and every b of each regime cell '
+              'for which the exact result is a routing of the bits of b (rounding cells with one symbolic operand: alignment, sticky collection, carry, borrow, rounding, saturation; both operand orders and signs); '
+              'rounding-matrix and specification-critical operand pairs are decided singly by constant propagation. Pairs of two dense significands and the multiplier/divider beyond the probed pairs are NOT decided.'), design='4/C01'),
     'C02': dict(level='proof', technique='symbolic bit-vector abstract interpretation of MIR on rounding cells (sign x scale x rounding situation; remaining bits symbolic): result vector == correctly rounded encoding, may-mode path enumeration for undecided tests, concrete confirmation before any alarm; interval cells for zero/subnormal/inf/NaN',
         text=('Every finite non-zero normal f32/f64 lies in exactly one rounding cell (sign, exponent, rounding situation of the target) on which the six from_f32/from_f64 conversions return bit-for-bit the posit-rule rounding (nearest, ties to even encoding, saturating, never zero); zeros, subnormals, infinities and NaNs are decided on interval cells. Hence from_f32(x) == from_f64(x as f64). Quick tier samples the sticky position / carry run for f64->P32E2 only; thorough takes every cell.'), design='4/C02'),
     'C06': dict(level='other', technique='abstract interpretation per cell + literal-table agreement with exact integer square roots',
         text=('P8E0::sqrt decided for all 256 inputs (table indexing term + every table entry vs exact root); P16E1/P32E2: NaR, negative, zero and literal cut-point cells. '
-              'Newton-Raphson general path not decided.'), design='4/C06'),
+              'perfect squares and the hardest-to-round P32E2 arguments around one decided singly. Newton-Raphson general path NOT decided (a seeded 1-ulp degradation of the iteration is known to escape).'), design='4/C06'),
     'C07': dict(level='proof', technique='symbolic bit-vector abstract interpretation of MIR on rounding cells (sign x scale x rounding situation; remaining bits symbolic): result vector == correctly rounded encoding, may-mode path enumeration for undecided tests, concrete confirmation before any alarm',
         text=('Every integer of the ten source types (cells: sign x leading-one position x rounding situation) converts to the posit-rule rounding of its value for P8E0/P16E1/P32E2, and every real-valued posit pattern (cells: sign x regime x exponent x rounding situation at the units position) converts to the nearest integer, ties to even, clamped to i32/u32/i64/u64; zero separately. to_*(NaR) is excluded (convention left open).'), design='4/C07'),
     'C08': dict(level='proof', technique='bit-routing equality per regime cell (widening, widen-then-narrow) + symbolic bit-vector abstract interpretation of MIR on rounding cells (sign x scale x rounding situation; remaining bits symbolic): result vector == correctly rounded encoding, may-mode path enumeration for undecided tests, concrete confirmation before any alarm',
@@ -30,9 +31,10 @@ CHECKS.update({
 })
 
 CHECKS.update({
-    'C05': dict(level='other', technique='abstract interpretation per operand-triple cell + program-dependence slice (necessary dependence on the selector)',
+    'C05': dict(level='other', technique='abstract interpretation per operand-triple cell + program-dependence slice (necessary dependence on the selector) + symbolic bit-vector rounding cells with one symbolic operand + directed probe families',
         text=('Decides NaR propagation, zero-product results and operand order of mul_add / mul_sub / sub_product per cell; requires the general-path result of each '
-              'kernel to depend on the operation selector (otherwise the three operations coincide); ternary probes (tie products with tiny addends, cancellation, results next to maxpos/minpos) decided singly. Rounding/cancellation beyond those points not decided.'), design='4/C05'),
+              'kernel to depend on the operation selector (otherwise the three operations coincide); proves the fused family correctly rounded when one factor is 2^t, the addend a constant (2^s*1.0 / 2^s*1.1..1) and the other factor any posit of a regime cell (rounding cells with one symbolic operand); '
+              'fused rounding-matrix, sparse-product (carry-out + tie + lone lowest product bit) and ternary probes decided singly. Dense x dense products and cancellation beyond the probed triples NOT decided.'), design='4/C05'),
     'C17': dict(level='proof', technique='symbolic term evaluation of MIR (forwarder wiring): term(forwarder) == term(expected inherent target)',
         text=('Every operator / From / num_traits / Quire trait method of the three posit and three quire types is proved to denote the expected inherent target applied '
               'to its parameters in order (or the expected named constant); AssociatedQuire and type aliases from the impl/alias tables. Obligations = forwarders + table entries; all discharged.'),
@@ -53,10 +55,10 @@ CHECKS.update({
         design='4/C03'),
     'C04': dict(level='other', technique='abstract interpretation on accumulator-state x operand cells, term-mode expansion of operand spellings, dependence slices, rounding cells of the accumulator for to_posit',
         text=('is_zero/is_nar decided for every accumulator state (all limbs), to_posit returns 0/NaR exactly there; NaR stickiness and zero operands for all base spellings; every tuple/array `+=`/`-=` spelling expands to the '
-              'expected products with the expected sign; accumulated value depends on flag, operands, accumulator; to_posit is proved to be the single posit-rule rounding of the fixed-point value of the state on rounding cells of the accumulator (every state for Q8E0; every leading-one position with sampled sticky / lowest-set-bit positions for Q16E1 and Q32E2); accumulate sequences whose exact sum is a tie, a near-tie or cancels are decided singly. That the accumulate leaves exactly the sum in the quire (product placement, carries) is NOT decided beyond those sequences.'), design='4/C04'),
+              'expected products with the expected sign; every base spelling applied to the cleared quire with one posit (other factor ONE) leaves exactly +/-p for every p; accumulated value depends on flag, operands, accumulator; to_posit is proved to be the single posit-rule rounding of the fixed-point value of the state on rounding cells of the accumulator (every state for Q8E0; every leading-one position with sampled sticky / lowest-set-bit positions for Q16E1 and Q32E2); accumulate sequences whose exact sum is a tie, a near-tie or cancels are decided singly. That the accumulate leaves exactly the sum in the quire (product placement, carries) is NOT decided beyond those sequences.'), design='4/C04'),
     'C12': dict(level='other', technique='term-mode evaluation + state-cell abstract interpretation + bit routing per regime cell',
         text=('from_bits(to_bits(q)) = q, clear(), neg() on every zero/non-zero limb pattern (incl. 512-bit Q32E2), the to_posit / -= alternation of into_two/three_posits, From<P> for Q = ZERO += (p, ONE); '
-              'posit->quire->posit proved the identity for every P8E0, P16E1 and P32E2 bit pattern (regime cells refined by the lowest set fraction bit). Exactness of the subtractions inside the residual split NOT decided.'), design='4/C12'),
+              'posit->quire->posit proved the identity for every P8E0, P16E1 and P32E2 bit pattern (regime cells refined by the lowest set fraction bit); q += p / q -= p on the cleared quire leave exactly +p / -p for every p. Exactness of the subtractions inside the residual split for a non-zero accumulator NOT decided.'), design='4/C12'),
     'C18': dict(level='proof', technique='term-mode abstract interpretation with a formal-polynomial domain over the generic default bodies',
         text=('poly1..poly18, poly3a, poly4a denote sum c[i]*x^(n-i) with exactly the documented rounded powers (x*x, x2*x, x2*x2) and quire stages; the three posit types use the default bodies. '
               'Assumes a quire stage is the exact sum rounded once (C04) and * is the rounded product (C01).'), design='4/C18'),
@@ -66,7 +68,7 @@ CHECKS.update({
     'C13': dict(level='other', technique='abstract interpretation per bound N on N-bit pattern cells + unit/layout dataflow (R8) + selector dependence slice (R5)',
         text=('NaR/zero algebra, N==2 branches and guard cells of + - * / mul_add mul_sub sub_product sqrt round of PxE1<N>/PxE2<N> per bound N (quick: 8 widths, thorough: all 31); '
               'exponent extraction and regime scaling must use the units of the decoding type; the kernel result must depend on the selector. N-bit rounding on the general path and the '
-              'PxE2<32>==P32E2 / PxE1<16>==P16E1 equivalences are NOT decided. 19 genuine defects of the generic kernels are listed as known findings.'), design='4/C13'),
+              'rounding-matrix, fused and sparse-product probes of the N-bit format decided singly for N in {5,8,16,32}. PxE2<32>==P32E2 / PxE1<16>==P16E1 equivalences are NOT decided. 24 genuine defects of the generic kernels are listed as known findings.'), design='4/C13'),
     'C14': dict(level='other', technique='abstract interpretation per bound N (and per (M,N) pair) on source cells + bit routing per regime cell for to_f64',
         text=('Zero/NaR preservation, N==2 and saturation cells, integer heads of all generic-width conversions per bound N; to_f64 exact by routing; fixed <-> generic and generic -> generic posit conversions proved correctly rounded on rounding cells for the analysed widths (sticky position sampled); from_f64 decided on probe floats. '
               'Integer <-> generic conversions beyond the guard cells and quire->PxE2 NOT decided. 12 genuine defects listed as known findings.'), design='4/C14'),
